@@ -241,8 +241,11 @@ def run_cases(ctx, exe, cases, cnt, repaired, cov, dist, distinct):
             c["p"], c["y"], c["um"], cnt, repaired, hx(CWD), hx(c["dest"]), int(c["reverse"]), hx(c["host"]), len(ents),
             " ".join(e.token() for e in ents), " ".join(stoks)))
     t0 = int(time.time())
+    ctx.log("%d source trees and jails built" % len(cases))
     impl = run_batch([exe], ops, timeout=1800, env=dict(os.environ, ASAN_OPTIONS="detect_leaks=0"))
+    ctx.log("real client/server round trips done")
     mans = ctx.model("pcp", "".join(l + "\n" for l in mlines), timeout=1800)
+    ctx.log("model round trips done")
     # specification on the real destination
     snaps, slines = [], []
     for c, j in zip(cases, jails):
@@ -264,7 +267,9 @@ def run_cases(ctx, exe, cases, cnt, repaired, cov, dist, distinct):
                 stoks += tokens(t, name=dest_name(c, userdir, t))
         ft = snapshot_tokens(snap, gens)
         slines.append("spec11 %d %s %d %s %s" % (c["p"], hx(dcanon), len(ft), " ".join(ft), " ".join(stoks)))
+    ctx.log("snapshots taken")
     sans = ctx.model("pcp", "".join(l + "\n" for l in slines), timeout=1800)
+    ctx.log("specification evaluated")
     for i, c in enumerate(cases):
         cov["evaluations"] += 1
         ans, crash = impl[i]
